@@ -32,7 +32,7 @@ for i in range(1, 21):
         os.makedirs(d, exist_ok=True)
         shutil.copy(patch, d + "/patch.diff")
         demo = "%s/demo%s_test.go" % (src, k)
-        shutil.copy(demo, d + "/demo_test.go")
+        shutil.copy(demo, d + "/demo_test.go.txt")
         notes = open("%s/notes%s.md" % (src, k)).read()
         ddir = (re.match(r"// dir: *(\S+)", open(demo).readline()) or [None, "."])[1]
         meta = {
@@ -41,7 +41,7 @@ for i in range(1, 21):
           "patch_applies_to_repo_commit": head,
           "rebased_onto_fix_commits": rebased,
           "what_it_needs_to_manifest": notes.strip(),
-          "demonstration": {"file": "demo_test.go", "copy_into_package_dir": ddir, "passes_on_clean_tree": True, "fails_with_patch": True},
+          "demonstration": {"file": "demo_test.go.txt (copy as <name>_test.go)", "copy_into_package_dir": ddir, "passes_on_clean_tree": True, "fails_with_patch": True},
           "what_was_run": ["tools/seed_verify.sh %s %s (scratch worktree: git apply; go test -vet=off -count=1 . ./j2x ./x2j ./x2j-wrapper -> 3 packages ok; demonstration test clean: ok, patched: FAIL)" % (pid, k),
                            "git -C /repo apply patch.diff; ./bin/mxjcheck run %s --tier quick (VERIF_SEED=1); git -C /repo checkout -- ." % pid],
           "detected_by_check": pid if detected else None,
